@@ -1,3 +1,8 @@
 //! Safe-Rust verification hooks for this module (accessors/wrappers only; no logic).
 #![allow(unused_imports, dead_code)]
 use super::*;
+
+// ---- C24/C34 (np_packet_h): raw constructor (no validation) for a reference-id request.
+pub fn refid_request_from_raw(payload_len: u16, offset: u16) -> ReferenceIdRequest {
+    ReferenceIdRequest { payload_len, offset }
+}
